@@ -108,10 +108,50 @@ def syTag (c : SyCase) (o : SyncOut) : String :=
     (if o.status.isSome then "+status" else "") ++
     (if !c.plan.isEmpty then "+faulted" else "")
 
+/-- the pod-control calls of the implementation's log as observed actions of the reconcile (what a recording pod control
+    would have seen): creates carry the revision label the harness recorded, deletes the identity of the cached pod they name,
+    a burst of retried updates counts once -/
+def podActs (i : SyncIn) (log : List String) (creates : List String) : List OAct :=
+  let ordOf (n : String) : Int :=
+    match i.pods.find? (·.name == n) with
+    | some c => c.pod.ord
+    | none => (((List.range 256).map Int.ofNat).find? (fun o => canonicalName i.setName o == n)).getD (-1)
+  let revOf (n : String) (k : Nat) : String :=
+    -- k-th create of that name
+    let hits := creates.filterMap (fun t => match t.splitOn "@" with | [nm, rv] => if nm == n then some rv else none | _ => none)
+    hits.getD k ""
+  let rec go (seen : List String) (prev : Option String) : List String → List OAct
+    | [] => []
+    | e :: rest =>
+      match e.splitOn ":" with
+      | ["create", "pod", n] => .create (ordOf n) (revOf n ((seen.filter (· == e)).length)) :: go (e :: seen) (some e) rest
+      | ["delete", "pod", n] =>
+        -- after a create of the same name in this sync the delete targets the object just built, not the cached pod
+        let fresh := seen.contains s!"create:pod:{n}"
+        .delete (ordOf n) (if fresh then none else (i.pods.find? (·.name == n)).map (·.pod.id)) :: go (e :: seen) (some e) rest
+      | ["update", "pod", n] => if prev == some e then go (e :: seen) (some e) rest else .update (ordOf n) :: go (e :: seen) (some e) rest
+      | _ => go seen prev rest
+  go [] none log
+
 def monitorSync (c : SyCase) (obs : String) : String :=
   let o := parseSyncObs obs
   let i := c.i
+  -- the reconcile-level predicates, re-checked on the calls of the real pod control
+  let m := syncF c.h c.i c.plan
+  let reached := m.upd != ""
+  let pods := m.claimed.map (·.pod)
+  let acts := podActs i o.log (csv (fieldD obs "creates") ",")
+  let wf := wfSnapshot pods
+  let v := i.view
+  let podFaulted := c.plan.any (fun f => (f.key.splitOn ":").getD 1 "" == "pod")
   verdict [
+    ("C01.creates", !reached || C01creates v acts),
+    ("C03.justified", !reached || C03 v m.upd pods acts (o.out == "ok")),
+    ("C04.vacant", !reached || !wf || C04 v pods acts),
+    ("C05.ordered", !reached || v.parallel || !wf || C05 v pods acts),
+    ("C07.rolling", !reached || !wf || C07 v m.cur m.upd pods acts),
+    ("C14.burst", !reached || !v.parallel || !wf || v.deleting || !c.plan.isEmpty || podFaulted || o.out != "ok" || C14 v pods acts),
+    ("C12.cache", C10cache o),
     ("C15.nopanic", o.out != "panic"),
     ("C11.paused", C11paused i o),
     ("C11.deleting", C11deleting i o),
@@ -133,7 +173,7 @@ def stepSync (cas obs : String) : String :=
     let ob := o.observe
     let stS := match o.status with | some s => showStatus s | none => "-"
     let ccS := match o.status, o.cc with | some _, some n => toString n | _, _ => "-"
-    let model := s!"log={",".intercalate ob.log} status={stS} cc={ccS} revs={";".intercalate (ob.revs.map showRevD)} out={ob.out} mut=0"
+    let model := s!"log={",".intercalate ob.log} status={stS} cc={ccS} revs={";".intercalate (ob.revs.map showRevD)} out={ob.out} mut=0 creates={",".intercalate ((o.acts.take (if o.outcome == .ok || o.log.isEmpty then o.acts.length else o.acts.length)).filterMap (fun a => match a with | .create od rv => some s!"{canonicalName c.i.setName od}@{rv}" | _ => none))}"
     let obs' := match obs.splitOn " site=" with | o :: _ => o | [] => obs
     s!"{model}\t{monitorSync c obs'}\t{syTag c o}"
 
